@@ -52,6 +52,19 @@ Theorem C16_oracle :
   forall cli tc doc fmt forced keys, precedence_b cli tc doc fmt forced keys (effective cli tc doc fmt forced) = true.
 Proof. exact precedence_b_holds. Qed.
 
+(* What a test case of a Markdown document finally OBSERVES: the process gets the effective environment, then the script
+   sources the shell state the previous test cases left (bash_runner.template), which re-declares every exported variable:
+   carried values come last.  A variable no earlier test case exported is observed with its effective value ... *)
+Definition observed_env (carried : env) (effective_env : env) : env := effective_env ++ carried.
+Theorem C16_env_observed_unless_carried : forall carried e k,
+  lookup k carried = None -> lookup k (observed_env carried e) = lookup k e.
+Proof. intros carried e k H. unfold observed_env. rewrite ConfigProofs.lookup_app, H. reflexivity. Qed.
+(* ... but one that an earlier test case exported with another value shadows the configuration: the listed known finding
+   env-shadowed-by-carried-state (test 1 runs with A=1 from the document defaults, test 2 sets A=2 inline and sees 1) *)
+Example C16_env_shadowed_by_carried_state_refuted :
+  exists carried e k, lookup k (observed_env carried e) <> lookup k e /\ lookup k e <> None.
+Proof. exists [(1, 1)], [(1, 2)], 1. split; vm_compute; congruence. Qed.
+
 Check C16_precedence_env :
   forall cli tc doc fmt forced k,
     lookup k (environment (effective cli tc doc fmt forced))
@@ -74,3 +87,4 @@ Print Assumptions C16_doc_empty_identity.
 Print Assumptions C16_lists_accumulate.
 Print Assumptions C16_format_defaults.
 Print Assumptions C16_oracle.
+Print Assumptions C16_env_observed_unless_carried.
